@@ -34,7 +34,7 @@ import ipv8
 from ipv8.messaging.interfaces.udp.endpoint import UDPv4Address
 from ipv8.messaging.lazy_payload import VariablePayload, VariablePayloadWID, vp_compile
 from ipv8.messaging.payload_dataclass import DataClassPayload, type_from_format
-from ipv8.messaging.serialization import ListOf, Serializable, Serializer
+from ipv8.messaging.serialization import ListOf, Payload, Serializable, Serializer
 
 from .. import core, fixtures
 
@@ -219,6 +219,10 @@ class Spec:
             self.hooks = {int(i): m for i, m in defn.get("hooks", [])}
             self.shape = defn.get("shape", "flat")
             self.msg_id = MSG_ID if self.shape == "wid" else None
+        self.old = int(self.shape[3:]) if self.shape.startswith("old") else 0     # leading fields of an old-style base
+        if self.old and (self.old >= len(self.fields) or "bits" in self.fields[:self.old]):
+            msg = f"an old-style base holds 1-2 leading non-bits fields and the class adds at least one: {defn}"
+            raise ValueError(msg)
         self.first = defn.get("first")        # which class is used first, and how (class state is built lazily)
         if self.first not in FIRST_USES or (str(self.first).startswith("parent")
                                             and not self.shape.startswith("derived")):
@@ -312,6 +316,9 @@ def build_plain(spec: Spec, kids: dict, compiled: bool) -> type:
         parent = type("C20Base", (VariablePayload,), ns)
         if compiled and spec.shape == "derived":
             parent = vp_compile(parent)
+    bases: tuple = (parent,)
+    if spec.old:
+        bases = (VariablePayload, build_old_base(spec, fmts))      # class New(VariablePayload, OldStylePayload)
     ns = {"format_list": fmts, "names": names, "__module__": SCRATCH, **_hook_ns(spec, range(base_names, len(names)))}
     if spec.msg_id is not None:
         ns["msg_id"] = spec.msg_id
@@ -323,9 +330,28 @@ def build_plain(spec: Spec, kids: dict, compiled: bool) -> type:
         scope = {"_default": _wrapped_default(spec, kids), "_ref": ref}
         exec(compile(src, "<c20 interpreted __init__>", "exec"), scope)  # noqa: S102
         ns["__init__"] = scope["__init__"]
-    cls = type("C20Payload", (parent,), ns)
+    cls = type("C20Payload", bases, ns)
     ref.append(cls)
     return vp_compile(cls) if compiled else cls
+
+
+def build_old_base(spec: Spec, fmts: list) -> type:
+    """
+    A hand-written ("old-style") Payload holding the leading ``spec.old`` fields: explicit __init__ storing its
+    arguments, explicit to_pack_list / from_unpack_list (like OldA in test_lazy_payload.py).
+    """
+    k = spec.old
+    names = spec.names[:k]
+    tags = [VariablePayload._to_packlist_fmt(f) for f in fmts[:k]]  # noqa: SLF001
+    src = (f"def __init__(self, {', '.join(names)}):\n" + "".join(f"    self.{n} = {n}\n" for n in names)
+           + "def to_pack_list(self):\n    return [" + ", ".join(f"({t!r}, self.{n})" for t, n in zip(tags, names)) + "]\n"
+           + "def from_unpack_list(cls, *args):\n    return cls(*args)\n")
+    scope: dict = {}
+    exec(compile(src, "<c20 old-style payload>", "exec"), scope)  # noqa: S102
+    return type("C20OldBase", (Payload,), {"format_list": fmts[:k], "__init__": scope["__init__"],
+                                           "to_pack_list": scope["to_pack_list"],
+                                           "from_unpack_list": classmethod(scope["from_unpack_list"]),
+                                           "__module__": SCRATCH})
 
 
 class Inexpressible(Exception):  # noqa: N818
@@ -375,6 +401,8 @@ def build_dc(spec: Spec, style: str, kids: dict) -> type:
     """@dataclass class P(DataClassPayload): ...  raises Inexpressible if the dataclass syntax cannot say it."""
     if "bits" in spec.fields:
         raise Inexpressible("bits")           # one dataclass field is one name; "bits" needs eight
+    if spec.old:
+        raise Inexpressible("old-style-base")  # the fields of a hand-written base are not dataclass fields
     base: type = DataClassPayload[spec.msg_id] if spec.msg_id is not None else DataClassPayload
     first = 0
     if spec.shape in ("derived", "derived-pb"):
@@ -613,6 +641,34 @@ def _exc(e: Exception) -> tuple:
     return (type(e).__name__, " ".join(str(e).split())[:160])
 
 
+def expected_bytes(spec: Spec, call: tuple):  # noqa: ANN201
+    """
+    Independent expectation for a well-formed call: the concatenation of what the serializer's packer of every field
+    makes of the (hook-unwrapped) argument of that field.  None if the call is malformed or a packer refuses a value.
+    """
+    if not call[3]:
+        return None
+    ikids = kids_for("interp")
+    byname = dict(zip(spec.names, call[1]))
+    byname.update(call[2])
+    if spec.default is not None:
+        byname.setdefault(spec.names[-1], _MISSING)
+    if set(byname) != set(spec.names) or len(call[1]) > len(spec.names):
+        return None
+    raw = []
+    for j, n in enumerate(spec.names):
+        v = _wrapped_default(spec, ikids) if byname[n] is _MISSING else mat(byname[n], ikids)
+        raw.append(v[1] if spec.hooks.get(j) in ("both", "pack") else v)
+    out = b""
+    for f, (a, n) in zip(spec.fields, spec.slices):
+        tag = f if isinstance(f, str) else ("payload-list" if f[0].endswith("list") else "payload")
+        try:
+            out += SER.get_packer_for(tag).pack(*raw[a:a + n])
+        except Exception:  # noqa: BLE001
+            return None
+    return out
+
+
 STAGES = [("construct", "values", "constructed-values"), ("pack", "bytes", "bytes"), ("unpack", "decoded", "decoded-values")]
 
 
@@ -735,6 +791,22 @@ def evaluate(defn: dict, seed: int, b: dict, only_call: int | None = None) -> tu
                 st[f"reference_{stage}_raises"] += 1
         if "decoded" in ref and ref["bytes"]:
             st["nontrivial"] += 1
+        interp_bad = any(v["oracle"] == "expected" and v["form"] == "interp" for v in viol)
+        want = expected_bytes(spec, call) if spec.old else None
+        if want is not None:
+            # old-style shapes: the interpreted form runs its legacy forwarding branch, so it is not trusted as the
+            # only reference: every form, the interpreted one included, has to meet the independent expectation
+            st["calls_with_independent_expectation"] += 1
+            for form, cls, kids in [("interp", ref_cls, ikids)] + [(f, c, k) for f, _, c, k in forms]:
+                got = ref if form == "interp" else run_call(spec, cls, kids, call)
+                bad = next((f"{k} raises {got[k][0]}: {got[k][1]}" for k in ("construct", "pack", "unpack") if k in got),
+                           None)
+                if bad is None and got["bytes"] != want:
+                    bad = f"bytes {got['bytes'].hex()} instead of {want.hex()}"
+                if bad is not None:
+                    interp_bad |= form == "interp"
+                    found("expected", form, None, idx, f"{_call_source(call)}: {bad} (expected from the packers of "
+                                                       f"the fields: {want.hex()})")
         compiled_bad = None
         for form, style, cls, kids in forms:
             if style not in (None, "typevar") and call[4] > b["wide"]:
@@ -746,6 +818,13 @@ def evaluate(defn: dict, seed: int, b: dict, only_call: int | None = None) -> tu
                 continue
             if v[0] == "ref-rejects":
                 st["reference_rejects_but_form_accepts"] += 1
+                if call[3] and not interp_bad:
+                    # a well-formed call (right arguments for the definition) that only the interpreted form refuses:
+                    # the forms do not behave alike, whichever of them is wrong
+                    stage = next(k for k in ("construct", "pack", "unpack") if k in ref)
+                    found("only-interpreted-fails", form, style, idx,
+                          f"{_call_source(call)}: interpreted form {stage} raises {ref[stage][0]}: {ref[stage][1]}, "
+                          f"{form} form does not", ref[stage][0])
                 continue
             exc = got[v[0]][0] if v[0] in ("construct", "pack", "unpack") else ""
             if form in ("compiled", "shipped"):
@@ -789,6 +868,12 @@ def render(defn: dict, dc_style: str | None = "typevar") -> str:
     if spec.shape.startswith("derived"):
         lines.append(f"class Base(VariablePayload):   # shape={spec.shape}: first field inherited from Base")
         wid = "Base"
+    if spec.old:
+        on = spec.names[:spec.old]
+        lines.append(f"class Old(Payload):   # hand-written: format_list = [{', '.join(fmt_src(f) for f in spec.fields[:spec.old])}]"
+                     f"; def __init__(self, {', '.join(on)}): " + "; ".join(f"self.{n} = {n}" for n in on)
+                     + "; explicit to_pack_list / from_unpack_list")
+        wid = "VariablePayload, Old"
     lines.append(f"class P({wid}):   # interpreted; compiled = @vp_compile on the same statement")
     if spec.msg_id is not None:
         lines.append(f"    msg_id = {spec.msg_id}")
@@ -799,7 +884,7 @@ def render(defn: dict, dc_style: str | None = "typevar") -> str:
         lines.append(f"    def __init__(self, {', '.join(n[:-1] + [n[-1] + '=' + dsrc])}, **kwargs): "
                      f"super().__init__({', '.join(n)}, **kwargs)")
     lines += hooks
-    if "bits" not in spec.fields and dc_style:
+    if "bits" not in spec.fields and dc_style and not spec.old:
         base = f"DataClassPayload[{spec.msg_id}]" if spec.msg_id is not None else "DataClassPayload"
         first = 0
         if spec.shape.startswith("derived"):
@@ -864,6 +949,12 @@ BLOCKS = {
 }
 
 
+OLD_BLOCKS = {
+    "quick": {"bases": [("H",), ("H", "varlenH")], "own_short": SMALL, "own_3": SMALL,
+              "hooks": ["", "both@first", "both@last"], "bounds": {"dev": 1, "wide": 0, "trim": 2}},
+    "thorough": {"bases": [("H",), ("varlenH",), ("H", "varlenH"), ("payload", "q")], "own_short": CORE, "own_3": SMALL,
+                 "hooks": HOOKS_BASIC, "bounds": {"dev": 2, "wide": 1, "trim": 3}},
+}
 FIRST_USE_DEV = {"quick": 0, "thorough": 1}     # instance deviations explored after a non-default first use
 
 
@@ -940,6 +1031,26 @@ def gen_defs(tier: str) -> tuple[list[tuple], list[dict]]:
                         "defaults_on_last_field": "absent | every format-appropriate value in DEFAULTS | None",
                         "hook_sets": hook_tokens, "shapes": shapes, "hooks_x_shapes": mode, "instance_bounds": b,
                         "programs": len(items) - n0, "of_which_first_use_orders": n_first})
+    # old-style base: class P(VariablePayload, Old) where Old is a hand-written Payload holding 1-2 leading fields
+    ob = OLD_BLOCKS[tier]
+    n0 = len(items)
+    own = [q for n in (1, 2) for q in _seqs(ob["own_short"], n)] + _seqs(ob["own_3"], 3)
+    for base in ob["bases"]:
+        for q in own:
+            s = (*base, *q)
+            for dflt in [None, *DEFAULTS.get(s[-1], []), "none"]:
+                for t in ob["hooks"]:
+                    d = {"f": list(s), "shape": f"old{len(base)}"}
+                    if dflt is not None:
+                        d["dflt"] = dflt
+                    if _hook_set(t, s):
+                        d["hooks"] = _hook_set(t, s)
+                    items.append((d, ob["bounds"]))
+    summary.append({"formats": f"old-style bases {ob['bases']} extended by 1-2 own fields over {ob['own_short']} and 3 own "
+                               f"fields over {ob['own_3']}", "length": "2-5", "format_sequences": len(own) * len(ob["bases"]),
+                    "defaults_on_last_field": "absent | every format-appropriate value in DEFAULTS | None",
+                    "hook_sets": ob["hooks"], "shapes": ["old1", "old2"], "hooks_x_shapes": "FULL",
+                    "instance_bounds": ob["bounds"], "programs": len(items) - n0, "of_which_first_use_orders": 0})
     return items, summary
 
 
@@ -999,6 +1110,10 @@ def _shrinks(defn: dict) -> list[dict]:
             out.append({k: v for k, v in {**defn, "first": "decode"}.items() if k != "shape"})
     if defn.get("shape"):
         out.append({k: v for k, v in defn.items() if k != "shape"})
+    if defn.get("shape") == "old2":      # a one-field old-style base instead of a two-field one
+        hooks = [[j - 1, m] for j, m in defn.get("hooks", []) if j > 0]
+        out.append({**{k: v for k, v in defn.items() if k != "hooks"}, "f": defn["f"][1:], "shape": "old1",
+                    **({"hooks": hooks} if hooks else {})})
     if defn.get("hooks"):
         out.append({k: v for k, v in defn.items() if k != "hooks"})
         if len(defn["hooks"]) > 1:
@@ -1071,7 +1186,8 @@ def reduce_violation(defn: dict, v: dict, seed: int, b: dict) -> tuple[dict, dic
 
 def make_violation(defn: dict, v: dict, seed: int, b: dict) -> core.Violation:
     key = f"{v['oracle']}:{v['form']}:{signature(defn, v)}"
-    what = (f"{v['form']} form departs from the interpreted definition at stage '{v['oracle']}': {v['detail']}\n"
+    versus = "what the packers of its fields produce" if v["oracle"] == "expected" else "the interpreted definition"
+    what = (f"{v['form']} form departs from {versus} at stage '{v['oracle']}': {v['detail']}\n"
             + render(defn, v["dc_style"] or "typevar"))
     return core.Violation(key, what, {"defn": defn, "seed": seed, "bounds": b, "call": v["call"],
                                       "oracle": v["oracle"], "form": v["form"], "dc_style": v["dc_style"]})
